@@ -88,6 +88,18 @@ func (c *Ctx) Role(rule, ifacePkg, ifaceName string) *types.Named {
 		return nil
 	}
 	impls := c.P.Implementations(iface, true)
+	if len(impls) > 1 {
+		// structural typing can make a sibling service satisfy a small interface; keep the implementations that live below the interface's own package
+		var own []*types.Named
+		for _, i := range impls {
+			if strings.HasPrefix(i.Obj().Pkg().Path(), ifacePkg+"/") {
+				own = append(own, i)
+			}
+		}
+		if len(own) >= 1 {
+			impls = own
+		}
+	}
 	if len(impls) != 1 {
 		var names []string
 		for _, i := range impls {
